@@ -7,7 +7,7 @@ def sync_job(prop, shape, lv, faults=False, wfaults=False, reorder=False, extra_
     D = ['ND=%d' % nd, 'LEVEL=%d' % lv, 'KINDS=' + ','.join(str(KN[k]) for k in shape)] + (['FAULTS'] if faults else []) + (['WFAULTS'] if wfaults else []) + (['REORDER'] if reorder else []) + list(extra_defines)
     name = '%s/sync_step/%s/level%d%s%s%s%s' % (prop, '-'.join(shape), lv, '-faults' if faults else '', '-wfaults' if wfaults else '', '-reorder' if reorder else '', tag)
     return vf.Job(name, ['C06_sync.c', 'stubs/log_stubs.c'], units=U, entry='c06_sync_step', defines=D,
-                  cflags=vf.PATHMAX64, unwind=max(nd, 8) + 9, timeout=timeout, mem_gb=12, funcs=FUNCS, cost=500, native=False, kind=kind, finding_key=finding_key,
+                  cflags=vf.PATHMAX64, unwind=max(nd, 8) + 9, timeout=timeout, mem_gb=12, funcs=FUNCS, cost=500, native=False, kind=kind, finding_key=finding_key, flags=['--max-field-sensitivity-array-size', '256'],
                   sample={'stripe shape (block state per disk)': shape, 'parity levels': lv, 'read faults': 'symbolic open/stat/read faults per disk' if faults else 'none', 'parity write faults': 'symbolic per level' if wfaults else 'none',
                           'symbolic': 'past-hash kinds, content tokens (recorded / encoded by parity / on disk now), per level old or new parity, info word, stop request'})
 def shapes(tier):
